@@ -2,6 +2,8 @@
 
 package fs
 
+import "github.com/spf13/afero"
+
 // Accessors for unexported constants of pkg/fs, added to the build virtually (go build -overlay)
 // for the translator genconsts and the correspondence harness of /verif.  Add-only.
 
@@ -75,3 +77,6 @@ func VerifEncRegions(e *EncryptedISO) [][2]int64 {
 
 // VerifISO3k3yInner returns the file an ISO3k3y wraps.
 func VerifISO3k3yInner(i *ISO3k3y) interface{} { return i.privateFile }
+
+// VerifSfoField exposes the PARAM.SFO field reader.
+func VerifSfoField(f afero.File, field string) (string, error) { return sfoField(f, field) }
